@@ -118,6 +118,16 @@ func opFile(st *state, args []string) []string {
 		}
 		return []byte(head + strings.Repeat(string(rune('a'+i%26)), fill) + ">" + tail)
 	}
+	// the messages are handed to Send as sub-slices of one batch buffer, packed back to back (len < cap: the bytes behind
+	// a message belong to the next one) — the transport must not write into the caller's buffer
+	var packed []byte
+	offs := make([]int, n+1)
+	for i := 0; i < n; i++ {
+		offs[i] = len(packed)
+		packed = append(packed, msg(i)...)
+	}
+	offs[n] = len(packed)
+	packedMsg := func(i int) []byte { return packed[offs[i]:offs[i+1]] }
 	done := make([]chan error, n)
 	started := make([]bool, n)
 	results := make([]error, n)
@@ -167,7 +177,7 @@ func opFile(st *state, args []string) []string {
 				mu.Lock()
 				senderOf[goid()] = i
 				mu.Unlock()
-				done[i] <- tr.Send(nil, msg(i))
+				done[i] <- tr.Send(nil, packedMsg(i))
 			}(i)
 			// until it reaches the schedule point, returns, or the step times out
 			deadline := time.After(step)
